@@ -34,11 +34,15 @@ Proof. apply (reachable_ind' QInv buf); [apply QInv_init|]. intros s0 l s1 _ Q T
 Definition pending_replies (pc : list instr) : list smsg := flat_map reply_of_instr pc.
 Definition expected_replies (ops : list op) : list smsg := flat_map reply_of ops.
 
+(** [sk]: the reply the recv goroutine gave up because the session's context
+    had been cancelled while the operation was in flight (at most the last one) *)
 Definition RInv (s : rstate) : Prop :=
-  forall x, replies (c_out (r_cs s x)) ++ pending_replies (c_pc (r_cs s x)) = expected_replies (c_ops (r_cs s x)).
+  forall x, exists sk,
+    replies (c_out (r_cs s x)) ++ pending_replies (c_pc (r_cs s x)) ++ sk = expected_replies (c_ops (r_cs s x)) /\
+    (sk = [] \/ (pending_replies (c_pc (r_cs s x)) = [] /\ (In x (r_cancel s) \/ c_dead (r_cs s x) = true))).
 
 Lemma RInv_init buf : RInv (r_init buf).
-Proof. intro x. reflexivity. Qed.
+Proof. intro x. exists []. split; [reflexivity | now left]. Qed.
 
 Lemma replies_snoc_event l m : is_event_msg m = true -> replies (l ++ [m]) = replies l.
 Proof. intro H. unfold replies. rewrite filter_app. cbn. rewrite H. cbn. apply app_nil_r. Qed.
@@ -55,93 +59,131 @@ Lemma out_upd_pc f c pc x : c_out (upd f c (set_pc (f c) pc) x) = c_out (f x).
 Proof. destruct (upd_cases f c (set_pc (f c) pc) x) as [[-> ->]|[_ ->]]; reflexivity. Qed.
 
 Lemma view_upd2 f c v1 c2 (g : cst -> cst) x :
-  (forall st, c_out (g st) = c_out st /\ c_pc (g st) = c_pc st /\ c_ops (g st) = c_ops st) ->
+  (forall st, c_out (g st) = c_out st /\ c_pc (g st) = c_pc st /\ c_ops (g st) = c_ops st /\ c_dead (g st) = c_dead st) ->
   c_out (upd (upd f c v1) c2 (g (upd f c v1 c2)) x) = c_out (upd f c v1 x) /\
   c_pc (upd (upd f c v1) c2 (g (upd f c v1 c2)) x) = c_pc (upd f c v1 x) /\
-  c_ops (upd (upd f c v1) c2 (g (upd f c v1 c2)) x) = c_ops (upd f c v1 x).
+  c_ops (upd (upd f c v1) c2 (g (upd f c v1 c2)) x) = c_ops (upd f c v1 x) /\
+  c_dead (upd (upd f c v1) c2 (g (upd f c v1 c2)) x) = c_dead (upd f c v1 x).
 Proof.
   intro Hg. destruct (upd_cases (upd f c v1) c2 (g (upd f c v1 c2)) x) as [[-> ->]|[_ ->]]; [apply Hg | auto].
 Qed.
 
-Theorem RInv_trans s l s' : QInv s -> RInv s -> trans s l s' -> RInv s'.
+Lemma reply_instr_pending i m rest : is_reply_instr i m -> pending_replies (i :: rest) = m :: pending_replies rest.
+Proof. destruct i; cbn; intro H; try contradiction; now subst. Qed.
+
+Theorem RInv_trans s l s' : Inv s -> QInv s -> RInv s -> trans s l s' -> RInv s'.
 Proof.
-  intros Q R T x. specialize (R x). unfold pending_replies, expected_replies in *.
-  inversion T; subst; cbn [r_cs with_cs].
+  intros I Q R T x. destruct (R x) as (sk & E & Side). unfold pending_replies, expected_replies in *.
+  assert (Pop : forall c i rest,
+            c_pc (r_cs s c) = i :: rest -> reply_of_instr i = [] ->
+            exists sk0,
+              replies (c_out (upd (r_cs s) c (set_pc (r_cs s c) rest) x)) ++
+              flat_map reply_of_instr (c_pc (upd (r_cs s) c (set_pc (r_cs s c) rest) x)) ++ sk0 =
+              flat_map reply_of (c_ops (upd (r_cs s) c (set_pc (r_cs s c) rest) x)) /\
+              (sk0 = [] \/ (flat_map reply_of_instr (c_pc (upd (r_cs s) c (set_pc (r_cs s c) rest) x)) = [] /\
+                            (In x (r_cancel s) \/ c_dead (upd (r_cs s) c (set_pc (r_cs s c) rest) x) = true)))).
+  { intros c i rest Hpc Hi. exists sk.
+    destruct (upd_cases (r_cs s) c (set_pc (r_cs s c) rest) x) as [[-> ->]|[_ ->]]; [|auto].
+    rewrite Hpc in E, Side. cbn [flat_map] in E, Side. rewrite Hi in E, Side. cbn in E, Side |- *. auto. }
+  inversion T; subst; cbn [r_cs with_cs r_cancel].
   - (* op *)
-    match goal with |- context [upd ?f ?k ?v x] => destruct (upd_cases f k v x) as [[-> ->]|[_ ->]] end; [|exact R].
-    cbn [c_out c_pc c_ops]. rewrite flat_map_app. cbn [flat_map]. rewrite app_nil_r.
+    match goal with |- context [upd ?f ?k ?v x] => destruct (upd_cases f k v x) as [[-> ->]|[_ ->]] end; [|eauto].
+    exists []. split; [|now left]. cbn [c_out c_pc c_ops]. rewrite flat_map_app. cbn [flat_map]. rewrite !app_nil_r.
     fold (pending_replies (program s c o)). rewrite program_replies.
-    rewrite H in R. cbn in R. rewrite app_nil_r in R. now rewrite R.
-  - match goal with |- context [upd ?f ?k ?v x] => destruct (upd_cases f k v x) as [[-> ->]|[_ ->]] end; [|exact R].
-    cbn. rewrite H in R. exact R.
-  - match goal with |- context [upd ?f ?k ?v x] => destruct (upd_cases f k v x) as [[-> ->]|[_ ->]] end; [|exact R].
-    cbn. rewrite H in R. exact R.
-  - match goal with |- context [upd ?f ?k ?v x] => destruct (upd_cases f k v x) as [[-> ->]|[_ ->]] end; [|exact R].
-    cbn. rewrite H in R. exact R.
-  - match goal with |- context [upd ?f ?k ?v x] => destruct (upd_cases f k v x) as [[-> ->]|[_ ->]] end; [|exact R].
-    cbn. rewrite H in R. exact R.
-  - match goal with |- context [upd ?f ?k ?v x] => destruct (upd_cases f k v x) as [[-> ->]|[_ ->]] end; [|exact R].
-    cbn. rewrite H in R. exact R.
+    assert (sk = []).
+    { destruct Side as [->|[_ [X|X]]]; [reflexivity | contradiction | congruence]. }
+    subst sk. rewrite H in E. cbn in E. rewrite ?app_nil_r in E. now rewrite E.
+  - eapply Pop; [eassumption | reflexivity].
+  - eapply Pop; [eassumption | reflexivity].
+  - eapply Pop; [eassumption | reflexivity].
+  - eapply Pop; [eassumption | reflexivity].
+  - eapply Pop; [eassumption | reflexivity].
   - (* reply *)
-    match goal with |- context [upd ?f ?k ?v x] => destruct (upd_cases f k v x) as [[-> ->]|[_ ->]] end; [|exact R].
-    cbn [c_out c_pc c_ops push_out set_pc]. rewrite H in R.
-    rewrite replies_snoc_reply by (eapply is_reply_not_event; eassumption).
-    destruct i; cbn in H0; try contradiction; subst m; cbn in R |- *; rewrite <- app_assoc; exact R.
-  - match goal with |- context [upd ?f ?k ?v x] => destruct (upd_cases f k v x) as [[-> ->]|[_ ->]] end; [|exact R].
-    cbn. rewrite H in R. exact R.
-  - match goal with |- context [upd ?f ?k ?v x] => destruct (upd_cases f k v x) as [[-> ->]|[_ ->]] end; [|exact R].
-    cbn. rewrite H in R. exact R.
+    match goal with |- context [upd ?f ?k ?v x] => destruct (upd_cases f k v x) as [[-> ->]|[_ ->]] end; [|eauto].
+    cbn [c_out c_pc c_ops c_dead push_out set_pc]. rewrite H in E, Side.
+    fold (pending_replies (i :: rest)) in E, Side. rewrite (reply_instr_pending i m rest H0) in E, Side.
+    exists sk. split.
+    + rewrite replies_snoc_reply by (eapply is_reply_not_event; eassumption). rewrite <- app_assoc. exact E.
+    + left. destruct Side as [->|[X _]]; [reflexivity | discriminate].
+  - (* pubbegin *)
+    match goal with |- context [upd ?f ?k ?v x] => destruct (upd_cases f k v x) as [[-> ->]|[_ ->]] end; [|eauto].
+    exists sk. rewrite H in E, Side. cbn in E, Side |- *. auto.
+  - eapply Pop; [eassumption | reflexivity].
   - (* visit *)
     unfold start_visit. cbn [r_cs with_cs].
     destruct (view_upd2 (r_cs s) c
        (set_pc (r_cs s c) (IVisit e t c' (reorder ord match reg_get c' (r_reg s) with Some m => m | None => [] end)
                             :: IPub e t (remove_conn c' rem) :: rest)) c' (fun st => set_rd st (c :: c_rd st)) x)
-      as (E1 & E2 & E3); [intro; auto|]. rewrite E1, E2, E3.
-    match goal with |- context [upd ?f ?k ?v x] => destruct (upd_cases f k v x) as [[-> ->]|[_ ->]] end; [|exact R].
-    cbn. rewrite H in R. exact R.
+      as (E1 & E2 & E3 & E4); [intro; auto|]. rewrite E1, E2, E3, E4.
+    match goal with |- context [upd ?f ?k ?v x] => destruct (upd_cases f k v x) as [[-> ->]|[_ ->]] end; [|eauto].
+    exists sk. rewrite H in E, Side. cbn in E, Side |- *. auto.
   - (* visitend *)
     destruct (view_upd2 (r_cs s) c (set_pc (r_cs s c) rest) c' (fun st => set_rd st (remove_conn c (c_rd st))) x)
-      as (E1 & E2 & E3); [intro; auto|]. rewrite E1, E2, E3.
-    match goal with |- context [upd ?f ?k ?v x] => destruct (upd_cases f k v x) as [[-> ->]|[_ ->]] end; [|exact R].
-    cbn. rewrite H in R. exact R.
+      as (E1 & E2 & E3 & E4); [intro; auto|]. rewrite E1, E2, E3, E4.
+    eapply Pop; [eassumption | reflexivity].
   - (* send *)
     destruct (view_upd2 (r_cs s) c (set_pc (r_cs s c) (IVisit e t c' todo :: rest)) c' (send_if_match (r_buf s) e t sub fs) x)
-      as (E1 & E2 & E3).
-    { intro st. rewrite send_if_match_out, send_if_match_pc, send_if_match_ops. auto. }
-    rewrite E1, E2, E3.
-    match goal with |- context [upd ?f ?k ?v x] => destruct (upd_cases f k v x) as [[-> ->]|[_ ->]] end; [|exact R].
-    cbn. rewrite H in R. exact R.
+      as (E1 & E2 & E3 & E4).
+    { intro st. rewrite send_if_match_out, send_if_match_pc, send_if_match_ops, send_if_match_dead. auto. }
+    rewrite E1, E2, E3, E4.
+    match goal with |- context [upd ?f ?k ?v x] => destruct (upd_cases f k v x) as [[-> ->]|[_ ->]] end; [|eauto].
+    exists sk. rewrite H in E, Side. cbn in E, Side |- *. auto.
   - (* unsuball *)
-    match goal with |- context [upd ?f ?k ?v x] => destruct (upd_cases f k v x) as [[-> ->]|[_ ->]] end; [|exact R].
-    cbn. rewrite H in R. exact R.
+    match goal with |- context [upd ?f ?k ?v x] => destruct (upd_cases f k v x) as [[-> ->]|[_ ->]] end; [|eauto].
+    exists sk. rewrite H in E, Side. cbn in E, Side |- *. auto.
   - (* take *)
-    match goal with |- context [upd ?f ?k ?v x] => destruct (upd_cases f k v x) as [[-> ->]|[_ ->]] end; exact R.
+    match goal with |- context [upd ?f ?k ?v x] => destruct (upd_cases f k v x) as [[-> ->]|[_ ->]] end; eauto.
   - (* deliver *)
-    match goal with |- context [upd ?f ?k ?v x] => destruct (upd_cases f k v x) as [[-> ->]|[_ ->]] end; [|exact R].
-    cbn [c_out c_pc c_ops]. rewrite replies_snoc_event; [exact R|].
+    match goal with |- context [upd ?f ?k ?v x] => destruct (upd_cases f k v x) as [[-> ->]|[_ ->]] end; [|eauto].
+    exists sk. cbn [c_out c_pc c_ops c_dead]. rewrite replies_snoc_event; [auto|].
     destruct (Q c) as [_ Hh]. now apply Hh.
+  - (* cancel *)
+    exists sk. split; [exact E|]. destruct Side as [->|[X [Y|Y]]]; [now left | right; split; [assumption | left; now right] | right; auto].
+  - (* skip *)
+    match goal with |- context [upd ?f ?k ?v x] => destruct (upd_cases f k v x) as [[-> ->]|[_ ->]] end; [|eauto].
+    cbn [c_out c_pc c_ops c_dead set_pc]. rewrite H in E, Side.
+    fold (pending_replies (i :: rest)) in E, Side. rewrite (reply_instr_pending i m rest H0) in E, Side.
+    assert (sk = []) by (destruct Side as [->|[X _]]; [reflexivity | discriminate]). subst sk.
+    assert (rest = []).
+    { pose proof (inv_pc s I c) as P. rewrite H in P. destruct i; cbn in H0; try contradiction.
+      - now destruct (pc_ok_inv_eose _ _ _ _ P).
+      - exact (pc_ok_inv_count _ _ _ _ P).
+      - exact (pc_ok_inv_ok _ _ _ _ P). }
+    subst rest. exists [m]. cbn in E |- *. split; [exact E | right; auto].
+  - (* defer *)
+    match goal with |- context [upd ?f ?k ?v x] => destruct (upd_cases f k v x) as [[-> ->]|[N ->]] end.
+    + exists sk. cbn [c_out c_pc c_ops c_dead]. rewrite H in E. rewrite flat_map_app. cbn in E |- *.
+      rewrite app_nil_r. split; [exact E | right; auto].
+    + exists sk. split; [exact E|]. destruct Side as [->|[X [Y|Y]]]; [now left | | right; auto].
+      right. split; [assumption|]. left. apply remove_conn_In. auto.
 Qed.
 
 Theorem RInv_reachable buf s : reachable buf s -> RInv s.
 Proof.
   intro R. induction R as [|s l R IH]; [apply RInv_init|].
   destruct (step_trans s l) as [E|T]; [now rewrite E|].
-  eapply RInv_trans; [eapply QInv_reachable | |]; eassumption.
+  eapply RInv_trans; [eapply Inv_reachable | eapply QInv_reachable | |]; eassumption.
 Qed.
 
-(** when a connection is idle, the replies it has received are exactly the
-    replies of its operations, in order: one EOSE per REQ, one OK carrying the
-    event's id per EVENT, one COUNT per COUNT, nothing for CLOSE *)
+(** when a connection is idle and its session alive, the replies it has
+    received are exactly the replies of its operations, in order: one EOSE per
+    REQ, one OK carrying the event's id per EVENT, one COUNT per COUNT,
+    nothing for CLOSE *)
 Theorem replies_exact buf s x :
-  reachable buf s -> c_pc (r_cs s x) = [] ->
+  reachable buf s -> c_pc (r_cs s x) = [] -> c_dead (r_cs s x) = false -> ~ In x (r_cancel s) ->
   replies (c_out (r_cs s x)) = expected_replies (c_ops (r_cs s x)).
 Proof.
-  intros R Hpc. pose proof (RInv_reachable buf s R x) as H. rewrite Hpc in H. cbn in H. now rewrite app_nil_r in H.
+  intros R Hpc Hd Hc. destruct (RInv_reachable buf s R x) as (sk & E & Side).
+  assert (sk = []) by (destruct Side as [->|[_ [X|X]]]; [reflexivity | contradiction | congruence]). subst sk.
+  rewrite Hpc in E. cbn in E. now rewrite app_nil_r in E.
 Qed.
 
-(** in any state: received replies are a prefix of the expected ones, the
-    rest is still in the connection's program *)
+(** in any state: received replies are a prefix of the expected ones; the
+    rest is still in the connection's program, except for the one reply that a
+    session cancelled in flight may have given up *)
 Theorem replies_prefix buf s x :
   reachable buf s ->
-  replies (c_out (r_cs s x)) ++ pending_replies (c_pc (r_cs s x)) = expected_replies (c_ops (r_cs s x)).
+  exists sk,
+    replies (c_out (r_cs s x)) ++ pending_replies (c_pc (r_cs s x)) ++ sk = expected_replies (c_ops (r_cs s x)) /\
+    (sk = [] \/ (pending_replies (c_pc (r_cs s x)) = [] /\ (In x (r_cancel s) \/ c_dead (r_cs s x) = true))).
 Proof. intro R. exact (RInv_reachable buf s R x). Qed.
